@@ -7,7 +7,9 @@ BORROW = [("C07", ["Table.__setitem__", "Table._append_row", "Table._concatenate
                    # the endpoints of a name span a:b are resolved by _get_row_index
                    "Table._get_row_index@int", "Table._get_row_index@str", "Table._get_row_index@tuple2", "Table._get_row_index@tuple3",
                    # 'regexp::count<<offset' is split by the same function as a row designator
-                   "Table._split_name_count_offset@text"])]
+                   "Table._split_name_count_offset@text",
+                   # derived tables are born without lookup tables (wave 9, C08-17 made them inherit the source's)
+                   "Table.__init__@unchecked"])]
 RAC = "rac/c08.py"
 RAC_BUDGET = {"quick": 60, "thorough": 900}
 RAC_MIN = {"quick": 18749, "thorough": 18749}      # fewer run-time evaluations than this = the harness skipped its work: checker broken, not "held"
